@@ -14,7 +14,7 @@ THEOREM_MODULES = ["PygacModel.Theorems.C19"]
 RULE = ("(a) gate: passes placed at every boundary of ALL 172 listed intervals (quick: 14 of 31 placements per interval) at offsets "
         "-1 line / exactly / +1 line for start and end, inside, outside, and on other spacecraft of both families inside "
         "the intervals: real is_tsm_affected() vs Lean gate on the regenerated tables vs the property's statement; (b) pixel "
-        "criterion: random images with planted noise, NaN pixels / rows, 1..12 lines x 3..20 columns: real get_tsm_idx vs "
+        "criterion: random images with planted noise, NaN pixels / rows / blocks in one channel pair, 1..12 lines x 3..20 columns: real get_tsm_idx vs "
         "the Lean model (exact variance > 4) vs explicit NaN-ignoring 3x3 standard deviation, guard band |var - 4| < 1e-6; "
         "(c) pipeline: synthetic KLM (NOAA-16) and POD (NOAA-14) files inside / straddling / outside an interval with noisy "
         "counts: get_calibrated_channels with the gate vs the same reader with the gate forced off - blanked pixels = "
@@ -117,6 +117,19 @@ def gen_images(rng, nprng):
         r_ = rng.randrange(n)
         for c in (ch1, ch2, ch4, ch5):
             c[r_, :] = np.nan
+    if n >= 3 and m >= 3 and rng.random() < 0.3:
+        # a block without any valid value in ONE of the two difference images (brightness temperature out of range, or a
+        # reflectance below the dark count), noisy in the other pair: a pixel whose whole 3x3 neighbourhood lies inside
+        # has an undefined deviation there - it must not be selected
+        h, w = rng.choice([3, 4, 5]), rng.choice([3, 4, 5])
+        i0, j0 = rng.randrange(max(1, n - h + 1)), rng.randrange(max(1, m - w + 1))
+        blk = (slice(i0, i0 + h), slice(j0, j0 + w))
+        if rng.random() < 0.5:
+            rng.choice([ch4, ch5])[blk] = np.nan
+            ch1[blk] += nprng.integers(0, 2, size=ch1[blk].shape) * rng.choice([20, 50])
+        else:
+            rng.choice([ch1, ch2])[blk] = np.nan
+            ch4[blk] += nprng.integers(0, 2, size=ch4[blk].shape) * rng.choice([25, 60])
     return ch1, ch2, ch4, ch5
 
 
